@@ -7,6 +7,10 @@
 (*  op = "run": constrained_parafac (function or ConstrainedCP wrapper, e.run.via) on generated    *)
 (*              data with the run parameters e.run, including fixed_modes = e.run.fixed; the       *)
 (*              harness logs measurements of every returned factor (see Constraints.tla).         *)
+(*  op = "prox": one call proximal_operator(v, <spec>, n_const=n, order=mode) on a matrix scaled by  *)
+(*              2^scale in float64 / float32; the output is measured like a factor.                *)
+(* Runs may be members of a SEQUENCE executed back to back in one process (same keywords and       *)
+(* modes, different parameters): every event is still judged by its own specification only.        *)
 (* The per-mode (kind, parameter) that must hold is computed HERE, by Assign, from the user's     *)
 (* specification -- never taken from the implementation's tables.                                 *)
 EXTENDS Constraints, Json, IOUtils
@@ -59,16 +63,32 @@ RunVerdict(e) ==
          (IF e.exc \in NumericFailure THEN <<"ok", -1>> ELSE <<"DecompRaised", -1>>)
     ELSE IF ~FactorShapeOK(e) THEN <<"Shape", -1>>
     ELSE LET A    == Assign(n, items)
-             \* free requested modes with a hard kind; a fixed mode is returned as supplied (C14)
-             obl  == {m \in Requested(n, items) \ SeqRange(e.run.fixed) : A[m].kind \in HardKinds}
+             obl  == ObligedModes(n, items, e.run)
              nomeas == {m \in obl : ~MeasOK(A[m].kind, e.factors[m + 1])}
              bad  == {m \in obl \ nomeas : ~Feasible(A[m].kind, A[m].par, e.factors[m + 1])} IN
-         IF nomeas # {} THEN <<"Finite", LeastOf(nomeas)>>
+         IF nomeas # {} /\ ~UnderflowRegime(e.run) THEN <<"Finite", LeastOf(nomeas)>>
          ELSE IF bad # {} THEN <<ClauseOf(A[LeastOf(bad)].kind), LeastOf(bad)>>
+         ELSE <<"ok", -1>>
+
+\* one call of the real proximal_operator with the user's specification for mode e.run.mode
+ProxVerdict(e) ==
+    LET n == e.n
+        items == e.items IN
+    IF ~(n \in Orders /\ ValidSpec(n, items) /\ ValidProx(n, e.run)) THEN <<"InDomain", -1>>
+    ELSE IF Rejected(n, items) THEN (IF e.raised THEN <<"ok", -1>> ELSE <<"MustReject", e.run.mode>>)
+    ELSE IF e.raised THEN <<"ProxRaised", e.run.mode>>
+    ELSE LET F == e.factor
+             kp == Assign(n, items)[e.run.mode] IN
+         IF ~(/\ F.rows = e.run.rows /\ Len(F.cols) = e.run.cols /\ F.finite \in BOOLEAN
+              /\ \A c \in 1..Len(F.cols) : Len(F.cols[c].diffs) = F.rows - 1) THEN <<"Shape", e.run.mode>>
+         ELSE IF kp.kind \notin HardKinds THEN <<"ok", -1>>
+         ELSE IF ~MeasOK(kp.kind, F) THEN <<"Finite", e.run.mode>>
+         ELSE IF ~Feasible(kp.kind, kp.par, F) THEN <<ClauseOf(kp.kind), e.run.mode>>
          ELSE <<"ok", -1>>
 
 Verdict(e) == IF e.op = "map" THEN MapVerdict(e)
               ELSE IF e.op = "run" THEN RunVerdict(e)
+              ELSE IF e.op = "prox" THEN ProxVerdict(e)
               ELSE <<"UnknownOp", -1>>
 
 TraceInit == i = 1 /\ cfg = NoCfg
